@@ -66,4 +66,13 @@ CHECKS["C14"] = dict(
     design="5 C14", note=L3_NOTE,
     technique="TLA+ grammar-mode cases with matching/non-matching names (TLC) replayed on the real CLI; three-valued path oracle")
 
+CHECKS["C19"] = dict(
+    level="model_checking",
+    text="TLC checks the design-level invariant IdemInv (spec/RedactorEnv.tla: re-reading every placeholder as a literal of its own class, a "
+         "second pass keeps every leaf or replaces it by the same placeholder) on every state of the table-walk, envelope-walk and grammar "
+         "seed spaces (thorough: free mode to depth 2); every state is replayed: the real CLI runs twice on multi-line files with the same "
+         "value flags and the second output must equal the first byte for byte. The relation quantifies over everything the tool can emit.",
+    design="5 C19", note=L3_NOTE,
+    technique="TLC invariant IdemInv on the walker spec + two-pass replay of every TLC state on the real CLI, byte comparison")
+
 NOT_YET = {}
